@@ -361,7 +361,7 @@ func oracle1(c Case, ctx *pbt.Ctx) error {
 	ctx.Label(fmt.Sprintf("tasks:%d", len(c.Prog.Tasks)))
 
 	// exclusion of the recorded bounded-queue finding, per (P, Q)
-	var runs []RunCfg
+	var runs, zone []RunCfg
 	type pq struct{ p, q int }
 	memo := map[pq]int{}
 	for _, rc := range c.Runs {
@@ -380,6 +380,9 @@ func oracle1(c Case, ctx *pbt.Ctx) error {
 			}
 			if v != 0 {
 				ctx.Excluded(kQueue)
+				if v == 1 && rc.P >= 2 {
+					zone = append(zone, rc)
+				}
 				if v == 2 {
 					ctx.Label("excluded:bound-unknown")
 				} else {
@@ -392,6 +395,9 @@ func oracle1(c Case, ctx *pbt.Ctx) error {
 	}
 	if len(runs) == 0 {
 		ctx.Label("all-runs-excluded")
+		if len(zone) > 0 && len(src)%3 == 0 {
+			return zoneRun(src, zone[0], exp, ctx)
+		}
 		return nil
 	}
 
@@ -476,7 +482,70 @@ func oracle1(c Case, ctx *pbt.Ctx) error {
 	if nontrivial {
 		ctx.NonTrivial(src)
 	}
+	if len(zone) > 0 && len(src)%3 == 0 {
+		return zoneRun(src, zone[0], exp, ctx)
+	}
 	return nil
+}
+
+// zoneRun executes one run inside the region that is excluded for the recorded bounded-queue finding
+// (a pool worker may have to send to a full queue) with a narrower verdict: the recorded deadlock is
+// recognised by its signature (a VM goroutine parked in a channel send while the others wait) and
+// counted as excluded; wrong results, or a confirmed standstill in which NO goroutine is sending (a
+// continuation or task was lost, not stuck), are violations also here.
+func zoneRun(src string, rc RunCfg, exp *expect, ctx *pbt.Ctx) error {
+	ctx.Label(fmt.Sprintf("zone-run:P%d/Q%d", rc.P, rc.Q))
+	tag := fmt.Sprintf("pool=%d queue=%d seed=%d (inside the bounded-queue region)", rc.P, rc.Q, rc.Seed)
+	res := request(src, []RunCfg{rc}, 1)
+	if res.TimedOut || res.Resp.Err != "" || len(res.Resp.Runs) != 1 {
+		pbt.Inconclusive()
+		return nil
+	}
+	if res.Died {
+		_, detail := sb.Classify(res)
+		return fmt.Errorf("interpreter process died while running the program under %s:\n%s", tag, clip(detail, 2500))
+	}
+	run := res.Resp.Runs[0]
+	if run.Extra["hung"] != true {
+		if run.Panic != "" {
+			return fmt.Errorf("Go panic on the main VM thread (%s): %s", tag, clip(run.Panic, 2000))
+		}
+		if run.ErrClass == "" {
+			if err := exp.checkStdout(run.Stdout); err != nil {
+				return fmt.Errorf("results differ from the model (%s): %v\n--- stdout\n%s", tag, err, clip(run.Stdout, 1500))
+			}
+		}
+		ctx.Label("zone-run:finished")
+		return nil
+	}
+	worker.Close()
+	dl, _ := classifyHang(run.Goroutines, num(run.Extra, "events1"), num(run.Extra, "events2"), run.Extra["finished_late"] == true)
+	if !dl {
+		pbt.Inconclusive()
+		return nil
+	}
+	i := strings.Index(run.Goroutines, dumpMarker)
+	stacks := vmStacks(run.Goroutines[:i])
+	if strings.Contains(run.Goroutines[:i], "chan send") {
+		ctx.Label("zone-run:recorded-deadlock")
+		return nil
+	}
+	// nobody is sending: confirm once with a longer deadline
+	res2 := request(src, []RunCfg{rc}, 3)
+	if res2.TimedOut || res2.Died || len(res2.Resp.Runs) != 1 || res2.Resp.Runs[0].Extra["hung"] != true {
+		worker.Close()
+		pbt.Inconclusive()
+		return nil
+	}
+	r2 := res2.Resp.Runs[0]
+	worker.Close()
+	dl2, _ := classifyHang(r2.Goroutines, num(r2.Extra, "events1"), num(r2.Extra, "events2"), r2.Extra["finished_late"] == true)
+	j := strings.Index(r2.Goroutines, dumpMarker)
+	if !dl2 || j < 0 || strings.Contains(r2.Goroutines[:j], "chan send") {
+		pbt.Inconclusive()
+		return nil
+	}
+	return fmt.Errorf("LOST WAKE-UP with %s: the program stands still although every task terminates, and no VM goroutine is blocked in a channel send (so this is not the recorded bounded-queue deadlock): a task or continuation was dropped; confirmed by a second run with a 3x deadline\n%s--- stdout so far\n%s", tag, clip(stacks, 3500), clip(run.Stdout, 600))
 }
 
 func TestAwait(t *testing.T) {
